@@ -4,6 +4,7 @@ from __future__ import annotations
 import hashlib
 import itertools
 import json
+import tempfile
 import traceback
 from pathlib import Path
 
@@ -1197,6 +1198,83 @@ def eval_marked(item):
         except Exception as e:  # noqa
             rows.append({"error": f"{type(e).__name__}: {e}", "case": repr((ename, i, prod, peek)), "tb": traceback.format_exc()[-800:]})
     return rows
+
+
+def eval_datapath(item):
+    """C12 add-on family: configurations carrying data files (DataPath) written with save / serialize and loaded back - into a fresh
+    directory, and again into a directory that already holds an earlier save (of the same object, of the same object whose data file
+    was replaced atomically, or of another object); one or two data files (same parameter name in two configurations of the graph,
+    same or different files).  Loaded values and data must be the configured ones, and the user's source files must be untouched."""
+    import shutil
+    import universe.g as U
+    from experimaestro.core import serialization as ser
+    from experimaestro.core.objects import ConfigInformation
+    Gr.ensure_init()
+    out = {"cases": 0, "problems": []}
+    base = Path(tempfile.mkdtemp(prefix="dp", dir=Gr._STATE["dir"]))
+    sources = {}
+
+    def src(name, text):
+        p = base / "src" / name
+        p.parent.mkdir(parents=True, exist_ok=True)
+        tmp = p.with_suffix(".tmp")
+        tmp.write_text(text)
+        tmp.replace(p)          # atomic replacement: a new inode
+        sources[p] = text
+        return p
+
+    shapes = {
+        "self": lambda v, p, q: U.Dat(v=v, data=p),
+        "boxed": lambda v, p, q: U.DatBox(d=U.Dat(v=v, data=p)),
+        "boxed-two-files": lambda v, p, q: U.DatBox(d=U.Dat(v=v, data=p), e=U.Dat(v=v + 10, data=q)),
+        "boxed-one-file-twice": lambda v, p, q: U.DatBox(d=U.Dat(v=v, data=p), e=U.Dat(v=v + 10, data=p)),
+    }
+
+    def read(obj, shape):
+        if shape == "self":
+            return [(obj.v, Path(obj.data).read_text())]
+        return [(d.v, Path(d.data).read_text()) for d in (obj.d, obj.e) if d is not None]
+
+    routes = {
+        "save": (lambda o, d: ser.save(o, d), lambda d: ser.load(d)),
+        "serialize": (lambda o, d: o.__xpm__.serialize(d), lambda d: ConfigInformation.deserialize(d)),
+    }
+    try:
+        for (rname, (save, load)), (shape, mk) in itertools.product(routes.items(), shapes.items()):
+            for history in ("fresh", "again-same", "again-other-content", "again-other-object"):
+                out["cases"] += 1
+                tag = f"{rname}-{shape}-{history}"
+                d = base / tag
+                d.mkdir()
+                sources.clear()
+                try:
+                    p, q = src(f"{tag}.bin", "first"), src(f"{tag}-q.bin", "first-q")
+                    obj = mk(1, p, q)
+                    save(obj, d)
+                    if history == "again-same":
+                        save(mk(1, p, q), d)
+                    elif history == "again-other-content":
+                        p, q = src(f"{tag}.bin", "second"), src(f"{tag}-q.bin", "second-q")
+                        obj = mk(2, p, q)
+                        save(obj, d)
+                    elif history == "again-other-object":
+                        p, q = src(f"{tag}-b.bin", "other"), src(f"{tag}-bq.bin", "other-q")
+                        obj = mk(3, p, q)
+                        save(obj, d)
+                    want = read(obj, shape)
+                    loaded = load(d)
+                    loaded = loaded[0] if isinstance(loaded, tuple) else loaded
+                    got = read(loaded, shape)
+                    if got != want:
+                        out["problems"].append({"kind": "data-file-differs", "route": rname, "shape": shape, "history": history, "got": got, "want": want})
+                    changed = sorted(s.name for s, text in sources.items() if s.read_text() != text)
+                    if changed:
+                        out["problems"].append({"kind": "source-file-overwritten", "route": rname, "shape": shape, "history": history, "files": changed})
+                except Exception as e:  # noqa
+                    out["problems"].append({"kind": "raises", "route": rname, "shape": shape, "history": history, "error": f"{type(e).__name__}: {e}"[:300]})
+    finally:
+        shutil.rmtree(base, ignore_errors=True)
+    return out
 
 
 # ---------------------------------------------------------------------------------------------- C02: configuration-valued defaults
